@@ -422,6 +422,7 @@ def check_criteria(case, out):
     out.sample = {"edges": case["edges"], "latents": sorted(lat)}
 
 
+THOROUGH_SCALE = 2  # thorough-tier example counts are n["thorough"] x this (one thorough run then takes roughly 5-10 minutes on 16 cores)
 SUBCHECKS = [
     Sub("do_structure", check_do, strategy=lambda tier: do_case(), n={"quick": 150, "thorough": 2000},
         shards={"quick": 4, "thorough": 8}, doc="BayesianNetwork.do / DAG.do: edges, CPDs of intervened nodes parent-free, other CPDs untouched, original untouched when not in place"),
